@@ -29,8 +29,10 @@ def obs_problems(o, strict_float=False):
     if not all(isinstance(n, str) for n in names):
         out.append(("names_str", "non-string name in %r" % (names,)))
         return out
-    if names != sorted(names):
-        out.append(("names_sorted", "names not sorted: %r" % (names,)))
+    cov0 = set(o.covobs.keys())
+    chain_names = [n for n in names if n not in cov0]
+    if chain_names != sorted(chain_names):
+        out.append(("names_sorted", "chain names not sorted: %r" % (names,)))
     if len(set(names)) != len(names):
         out.append(("names_unique", "names not unique: %r" % (names,)))
     cov = set(o.covobs.keys())
